@@ -14,6 +14,7 @@ import (
 	"path/filepath"
 	"strings"
 	"sync"
+	"sync/atomic"
 	"time"
 
 	"github.com/coredhcp/coredhcp/handler"
@@ -162,6 +163,34 @@ func chainsubMain() {
 	if wd == 0 {
 		wd = 3 * time.Second
 	}
+	// a file plugin with autorefresh: its lease file is rewritten (same content, in place) again and
+	// again while datagrams are handled, so that reloads and lookups interleave
+	var stopRefresh int32
+	var rwg sync.WaitGroup
+	for _, pl := range append(append([]chainPlug{}, spec.Plugins4...), spec.Plugins6...) {
+		if pl.Name == "file" && len(pl.Args) >= 2 && pl.Args[1] == "autorefresh" {
+			path := sub(pl.Args[:1])[0]
+			content, err := os.ReadFile(path)
+			if err != nil {
+				continue
+			}
+			rwg.Add(1)
+			go func() {
+				defer rwg.Done()
+				for atomic.LoadInt32(&stopRefresh) == 0 {
+					if f, err := os.OpenFile(path, os.O_WRONLY, 0); err == nil {
+						f.WriteAt(content, 0)
+						f.Close()
+					}
+					time.Sleep(300 * time.Microsecond)
+				}
+			}()
+		}
+	}
+	defer func() {
+		atomic.StoreInt32(&stopRefresh, 1)
+		rwg.Wait()
+	}()
 	hung := 0
 	for _, dg := range spec.Dgrams {
 		var o chainOut
